@@ -16,6 +16,7 @@ import (
 	"gitlab.com/gomidi/midi/v2"
 	cc "gitlab.com/gomidi/midi/v2/internal/verifh/conccases"
 	cp "gitlab.com/gomidi/midi/v2/internal/verifh/concpairs"
+	"gitlab.com/gomidi/midi/v2/internal/verifh/disturb"
 	"gitlab.com/gomidi/midi/v2/internal/verifh/engine"
 	"gitlab.com/gomidi/midi/v2/smf"
 )
@@ -509,6 +510,7 @@ func tempoValues(part, parts int) {
 
 func main() {
 	ctx = engine.Start("C11", "exploration")
+	disturb.Install(ctx)
 	if ctx.ReplayPath != "" {
 		if cp.Replay(ctx, ctx.LoadReplay(), "time-at", cc.TimeAt()) {
 			ctx.Finish("replay")
